@@ -1,10 +1,10 @@
 (* C09 — Subscription lifecycle: notified while registered, silent after, released once.
-   Statements only; proofs in WorldRegistry.v.
+   Statements only; proofs in WorldRegistry.v, WorldSids.v.
    C09_partial: proved are the registry facts and the unsubscribe steps of the model; that no
    notification begins after unsubscribe() returned is FALSE of the code as it stands for the one
    notification whose snapshot was taken before (known finding F3, reproduced by the model); the
    lifecycle over whole histories is decided by engine L and the C09 monitor with that class. *)
-From RS Require Import Base Channel Pipeline Script World Hist WorldRegistry.
+From RS Require Import Base Channel Pipeline Script World Hist WorldRegistry WorldSids.
 
 Section C09.
 Context {State : Type}.
@@ -38,8 +38,21 @@ Theorem C09_unsubscribe_direct : forall (w : world (State := State)) t r sid l,
                            t (TClient r l PIdle))
                (ERet t (CUnsubscribe sid) RUnit)).
 Proof. exact unsubscribe_direct. Qed.
+
+(* programs whose registration calls carry pairwise distinct identifiers (the real API hands out a
+   fresh Subscription per call): in every reachable world the registry holds at most one entry per
+   identifier - so unsubscribe removes exactly the caller's entry and nobody else's *)
+Theorem C09_registry_unique : forall (cfg : wconfig (State := State)) reducers mws progs w,
+  length progs <= 100 ->
+  NoDup (flat_map (flat_map (fun c => match c with
+                                      | CAddSubscriber s | CSubscribeSelector s _ | CSubscribed s _ _ | CIter s _ _ => [s]
+                                      | _ => []
+                                      end)) progs) ->
+  reachable cfg reducers mws progs w -> NoDup (map se_id (w_subs w)).
+Proof. intros cfg reducers mws progs w L D R. exact (registry_unique cfg reducers mws progs w L D R). Qed.
 End C09.
 
 Print Assumptions C09_registry.
 Print Assumptions C09_unsubscribe_again.
 Print Assumptions C09_unsubscribe_direct.
+Print Assumptions C09_registry_unique.
